@@ -245,6 +245,61 @@ def gen_namespace(rng, nsname, thorough, deps, want_blocks=True, main=True, gobj
                 block(tl, fn['file'])
         if rng.random() < 0.4:
             D({'k': 'function', 'name': '%s_%s_count_all' % (p, sr), 'ret': ['basic', 'int'], 'params': []}, f)
+    # ---- functions with out parameters, arrays, containers, closures, (type) overrides, rename-to, macros
+    INTP = ['ptr', ['basic', 'int']]
+    for r in records:
+        sr = snake(r)
+        SELF = ['self', ['ptr', ['named', P + r]]]
+        if rng.random() < 0.35:
+            fn = D({'k': 'function', 'name': '%s_%s_get_range' % (p, sr), 'ret': ['named', 'gboolean'],
+                    'params': [SELF, ['min', INTP], ['max', INTP]]}, rng.choice(apis))
+            if want_blocks and rng.random() < 0.8:
+                block(['%s:' % fn['name'], '@self: the object', '@min: (out): the minimum',
+                       '@max: (out) (optional): the maximum', '', 'Gets the range.', '', 'Returns: %TRUE if set'], fn['file'])
+        if rng.random() < 0.35:
+            fn = D({'k': 'function', 'name': '%s_%s_set_items' % (p, sr), 'ret': ['void'],
+                    'params': [SELF, ['items', ['ptr', ['const', ['basic', 'int']]]], ['n_items', ['named', 'gsize']]]}, rng.choice(apis))
+            if want_blocks and rng.random() < 0.8:
+                block(['%s:' % fn['name'], '@self: the object', '@items: (array length=n_items) (nullable): the items',
+                       '@n_items: number of items', '', 'Sets the items.'], fn['file'])
+        if rng.random() < 0.3:
+            fn = D({'k': 'function', 'name': '%s_%s_list_names' % (p, sr), 'ret': ['ptr', ['ptr', ['basic', 'char']]],
+                    'params': [SELF]}, rng.choice(apis))
+            if want_blocks and rng.random() < 0.8:
+                block(['%s:' % fn['name'], '@self: the object', '', 'Lists names.', '',
+                       'Returns: (transfer full) (array zero-terminated=1): the names'], fn['file'])
+        if rng.random() < 0.3:
+            fn = D({'k': 'function', 'name': '%s_%s_get_children' % (p, sr), 'ret': ['ptr', ['named', 'GList']],
+                    'params': [SELF]}, rng.choice(apis))
+            if want_blocks and rng.random() < 0.8:
+                block(['%s:' % fn['name'], '@self: the object', '', 'Children.', '',
+                       'Returns: (element-type %s.%s) (transfer container): the children' % (nsname, r)], fn['file'])
+        if cb_names and rng.random() < 0.35:
+            fn = D({'k': 'function', 'name': '%s_%s_foreach' % (p, sr), 'ret': ['void'],
+                    'params': [SELF, ['func', ['named', rng.choice(cb_names)]], ['user_data', GPOINTER],
+                               ['notify', ['named', 'GDestroyNotify']]]}, rng.choice(apis))
+            if want_blocks and rng.random() < 0.8:
+                block(['%s:' % fn['name'], '@self: the object',
+                       '@func: (scope notified) (closure user_data) (destroy notify): a function',
+                       '@user_data: data for @func', '@notify: destroy notify', '', 'Calls @func.'], fn['file'])
+        if rng.random() < 0.25:
+            fn = D({'k': 'function', 'name': '%s_%s_get_data' % (p, sr), 'ret': GPOINTER, 'params': [SELF, ['key', STRING_IN]]}, rng.choice(apis))
+            if want_blocks:
+                block(['%s:' % fn['name'], '@self: the object', '@key: (type filename): a key', '', 'Data.', '',
+                       'Returns: (type %s.%s) (transfer none) (nullable): the data' % (nsname, rng.choice(records))], fn['file'])
+    # one rename-to pair at most (two of them aiming at one target would make order matter by design)
+    if records and rng.random() < 0.3:
+        sr = snake(records[0])
+        D({'k': 'function', 'name': '%s_%s_open' % (p, sr), 'ret': ['void'],
+           'params': [['self', ['ptr', ['named', P + records[0]]]], ['mode', ['basic', 'int']], ['varargs_like', GPOINTER]]}, rng.choice(apis))
+        fn = D({'k': 'function', 'name': '%s_%s_open_simple' % (p, sr), 'ret': ['void'],
+                'params': [['self', ['ptr', ['named', P + records[0]]]], ['mode', ['basic', 'int']]]}, rng.choice(apis))
+        if want_blocks:
+            block(['%s: (rename-to %s_%s_open)' % (fn['name'], p, sr), '@self: the object', '@mode: the mode', '', 'Opens.'], fn['file'])
+    for i in range(rng.randint(0, 2)):
+        D({'k': 'function_macro', 'name': '%s_%s_MACRO%d' % (p.upper(), rng.choice(['CHECK', 'IS', 'CAST']), i),
+           'params': ['obj', 'val'][:rng.randint(1, 2)]}, rng.choice(apis))
+
     for i in range(rng.randint(0, 3)):
         params = [['arg%d' % j, rand_param_type()] for j in range(rng.randint(0, 3))]
         fn = D({'k': 'function', 'name': '%s_%s' % (p, rng.choice(['init', 'shutdown', 'version', 'check', 'configure']) + str(i)),
@@ -375,6 +430,37 @@ def gen_namespace(rng, nsname, thorough, deps, want_blocks=True, main=True, gobj
                 D({'k': 'function', 'name': qfn, 'ret': ['named', 'GQuark'], 'params': []}, rng.choice(apis))
                 quarks[qfn] = '<error-quark function="%s" domain="%s-%s-error-quark"/>' % (qfn, p, sc.replace('_', '-'))
             prev = cl
+        # async / finish / sync triples on the first class (needs the Gio stand-in)
+        if classes and rng.random() < 0.6:
+            cl = classes[0]
+            sc = snake(cl)
+            SELF = ['self', ['ptr', ['named', P + cl]]]
+            for verb in rng.sample(['load', 'save', 'connect'], rng.randint(1, 2)):
+                parts = rng.sample(['async', 'finish', 'sync'], rng.randint(2, 3))
+                if 'async' in parts:
+                    D({'k': 'function', 'name': '%s_%s_%s_async' % (p, sc, verb), 'ret': ['void'],
+                       'params': [SELF, ['cancellable', ['ptr', ['named', 'GCancellable']]],
+                                  ['callback', ['named', 'GAsyncReadyCallback']], ['user_data', GPOINTER]]}, rng.choice(apis))
+                if 'finish' in parts:
+                    D({'k': 'function', 'name': '%s_%s_%s_finish' % (p, sc, verb), 'ret': ['named', 'gboolean'],
+                       'params': [SELF, ['result', ['ptr', ['named', 'GAsyncResult']]],
+                                  ['error', ['ptr', ['ptr', ['named', 'GError']]]]]}, rng.choice(apis))
+                if 'sync' in parts:
+                    D({'k': 'function', 'name': '%s_%s_%s%s' % (p, sc, verb, rng.choice(['', '_sync'])), 'ret': ['named', 'gboolean'],
+                       'params': [SELF, ['cancellable', ['ptr', ['named', 'GCancellable']]],
+                                  ['error', ['ptr', ['ptr', ['named', 'GError']]]]]}, rng.choice(apis))
+        # a boxed type and a pointer type without a structure in the scanned headers
+        if rng.random() < 0.4:
+            fn = get_type_fn('hidden')
+            dump[fn] = '<boxed name="%sHidden" get-type="%s"/>' % (P, fn)
+            for mname in rng.sample(['new', 'copy', 'free', 'peek'], rng.randint(1, 3)):
+                D({'k': 'function', 'name': '%s_hidden_%s' % (p, mname),
+                   'ret': ['ptr', ['named', P + 'Hidden']] if mname in ('new', 'copy') else ['void'],
+                   'params': [] if mname == 'new' else [['self', ['ptr', ['named', P + 'Hidden']]]]}, rng.choice(apis))
+        if rng.random() < 0.25:
+            fn = get_type_fn('cookie')
+            dump[fn] = '<pointer name="%sCookie" get-type="%s"/>' % (P, fn)
+            D({'k': 'typedef_struct_fwd', 'name': P + 'Cookie', 'tag': '_' + P + 'Cookie'}, f_typedefs)
         # some plain records become boxed types, some enums get a GType
         for r in records:
             d = [x for x in decls if x.get('name') == P + r and x['k'] in ('typedef_struct_fwd', 'typedef_struct')]
@@ -393,7 +479,7 @@ def gen_namespace(rng, nsname, thorough, deps, want_blocks=True, main=True, gobj
            'options': [], 'file_order': files, 'order_before': order_before, 'decls': decls,
            'comments': comments, 'deps': deps, '_records': records}
     if gobject:
-        job['includes'] = ['GObject-2.0'] + job['includes']
+        job['includes'] = ['Gio-2.0'] + job['includes']
         job['dump'] = dump
         job['error_quarks'] = quarks
         job['program'] = 'bin/dumper'
